@@ -169,6 +169,7 @@ type modelEval struct {
 	base    string // prelude + negated obligation + size hints
 	fixed   []string
 	cache   map[Term]*sx
+	strs     []string
 	sortHint map[Term]string
 	typeHint map[Term]string
 	hintsCommitted bool
@@ -267,6 +268,106 @@ func (m *modelEval) eval(terms []Term) bool {
 		m.fixed = append(m.fixed, fmt.Sprintf("(= %s %s)", need[i], p.list[1].String()))
 	}
 	return true
+}
+
+// modelStrings: every string literal occurring in a full model (candidate map keys).
+func (m *modelEval) modelStrings() []string {
+	if m.strs != nil {
+		return m.strs
+	}
+	m.strs = []string{}
+	q := m.base
+	for _, f := range m.fixed {
+		q += "(assert " + f + ")\n"
+	}
+	cfg := *m.c.cfg
+	cfg.Race = false
+	if cfg.TimeoutMs > 15000 {
+		cfg.TimeoutMs = 15000
+	}
+	m.queries++
+	var r solveResult
+	for _, s := range []string{"z3-new", "z3"} {
+		r = runSolver(s, q+"(check-sat)\n(get-model)\n", &cfg, true, fmt.Sprintf("fullmodel%d", m.queries))
+		if r.status == "sat" {
+			break
+		}
+	}
+	if r.status != "sat" {
+		return m.strs
+	}
+	seen := map[string]bool{}
+	txt := r.model
+	for i := 0; i < len(txt); i++ {
+		if txt[i] != '"' {
+			continue
+		}
+		j := i + 1
+		for j < len(txt) {
+			if txt[j] == '"' {
+				if j+1 < len(txt) && txt[j+1] == '"' {
+					j += 2
+					continue
+				}
+				break
+			}
+			j++
+		}
+		lit := txt[i : j+1]
+		if !seen[lit] && len(lit) < 60 {
+			seen[lit] = true
+			m.strs = append(m.strs, lit)
+		}
+		i = j
+	}
+	sort.Strings(m.strs)
+	if len(m.strs) > 24 {
+		m.strs = m.strs[:24]
+	}
+	return m.strs
+}
+
+// finiteMap asks for a model in which map id has a small explicit domain whose size is its length
+// (the VC keeps len and domain as separate abstractions; the real code cannot).
+func (m *modelEval) finiteMap(tr *Tr, u *types.Map, id int64) {
+	if tr.eng.sorts.sortOf(u.Key()) != "String" {
+		return
+	}
+	dom, _, ln := tr.mapComps(u)
+	hd, hl := tr.initHeap[dom.name], tr.initHeap[ln.name]
+	if hd == nil || hl == nil {
+		return
+	}
+	cands := append([]string{`"a"`, `"b"`}, m.modelStrings()...)
+	seen := map[string]bool{}
+	var uniq []string
+	for _, c := range cands {
+		if !seen[c] {
+			seen[c] = true
+			uniq = append(uniq, c)
+		}
+	}
+	var alts, sum []string
+	for _, c := range uniq {
+		alts = append(alts, fmt.Sprintf("(= k %s)", c))
+		sum = append(sum, fmt.Sprintf("(ite (%s %d %s) 1 0)", hd.fname, id, c))
+	}
+	cons := fmt.Sprintf("(and (forall ((k String)) (=> (%s %d k) (or %s))) (= (%s %d) (+ 0 %s)))", hd.fname, id, strings.Join(alts, " "), hl.fname, id, strings.Join(sum, " "))
+	// keep it only if still satisfiable
+	q := m.base
+	for _, f := range m.fixed {
+		q += "(assert " + f + ")\n"
+	}
+	cfg := *m.c.cfg
+	cfg.Race = false
+	if cfg.TimeoutMs > 10000 {
+		cfg.TimeoutMs = 10000
+	}
+	m.queries++
+	r := runSolver("z3-new", q+"(assert "+cons+")\n(check-sat)\n", &cfg, false, fmt.Sprintf("finmap%d", m.queries))
+	if r.status == "sat" {
+		m.fixed = append(m.fixed, cons)
+	}
 }
 
 func (m *modelEval) get(t Term) *sx {
@@ -557,6 +658,7 @@ func (g *goBuilder) mapOf(v *sx, u *types.Map, t types.Type, depth int) string {
 	name := g.fresh("m")
 	g.maps[key] = name
 	g.stmts = append(g.stmts, fmt.Sprintf("%s := %s{}", name, g.typeName(t)))
+	g.m.finiteMap(g.tr, u, id)
 	// candidate keys: every key term that the VC reads in this component
 	h := g.tr.initHeap[dom.name]
 	if h == nil || depth > 3 {
@@ -572,6 +674,26 @@ func (g *goBuilder) mapOf(v *sx, u *types.Map, t types.Type, depth int) string {
 	sort.Strings(keyTerms)
 	g.m.eval(keyTerms)
 	seen := map[string]bool{}
+	if g.tr.eng.sorts.sortOf(u.Key()) == "String" {
+		// keys that only exist as quantifier witnesses: try every string literal of the model
+		var cands []Term
+		for _, lit := range g.m.modelStrings() {
+			cands = append(cands, app(h.fname, IntLit(id), lit))
+		}
+		g.m.eval(cands)
+		for _, lit := range g.m.modelStrings() {
+			in := g.m.cache[app(h.fname, IntLit(id), lit)]
+			if in == nil || in.atom != "true" || seen[lit] {
+				continue
+			}
+			seen[lit] = true
+			valExpr := g.zeroOf(u.Elem())
+			if hv := g.tr.initHeap[val.name]; hv != nil {
+				valExpr = g.valueOf(g.m.get(app(hv.fname, IntLit(id), lit)), u.Elem(), depth+1)
+			}
+			g.stmts = append(g.stmts, fmt.Sprintf("%s[%s] = %s", name, strconv.Quote(smtStringToGo(strings.Trim(lit, "\""))), valExpr))
+		}
+	}
 	for mk := range h.memo {
 		parts := strings.Split(mk, "\x00")
 		if len(parts) != 2 || strings.HasPrefix(parts[1], "q_") {
@@ -818,3 +940,30 @@ func (c *CheckCtx) runReplayTest(pkgPath, pkgName, src string) (string, bool, bo
 }
 
 func (c *CheckCtx) scratchBase() string { return filepath.Dir(c.scratch) }
+
+func init() {
+	// C14: compare Equal_Q with an independent structural equality written from the statement
+	customOracles["c14-eq"] = func(g *goBuilder, root *ssa.Function, args []string, call string) string {
+		g.imports["reflect"] = "reflect"
+		q := func(name string) string {
+			t := g.tr.eng.namedType("types", name)
+			if t == nil {
+				return name
+			}
+			return g.typeName(t)
+		}
+		var b strings.Builder
+		b.WriteString("\tvar seqOf func(v interface{}) ([]" + q("MalType") + ", bool)\n")
+		b.WriteString("\tseqOf = func(v interface{}) ([]" + q("MalType") + ", bool) {\n\t\tswitch x := v.(type) {\n\t\tcase " + q("List") + ":\n\t\t\treturn x.Val, true\n\t\tcase " + q("Vector") + ":\n\t\t\treturn x.Val, true\n\t\t}\n\t\treturn nil, false\n\t}\n")
+		b.WriteString("\tvar eq func(a, b interface{}) bool\n\teq = func(a, b interface{}) bool {\n")
+		b.WriteString("\t\tas, aok := seqOf(a)\n\t\tbs, bok := seqOf(b)\n\t\tif aok && bok {\n\t\t\tif len(as) != len(bs) {\n\t\t\t\treturn false\n\t\t\t}\n\t\t\tfor i := range as {\n\t\t\t\tif !eq(as[i], bs[i]) {\n\t\t\t\t\treturn false\n\t\t\t\t}\n\t\t\t}\n\t\t\treturn true\n\t\t}\n")
+		b.WriteString("\t\tif reflect.TypeOf(a) != reflect.TypeOf(b) {\n\t\t\treturn false\n\t\t}\n\t\tswitch x := a.(type) {\n")
+		b.WriteString("\t\tcase " + q("Symbol") + ":\n\t\t\treturn x.Val == b.(" + q("Symbol") + ").Val\n")
+		b.WriteString("\t\tcase " + q("HashMap") + ":\n\t\t\ty := b.(" + q("HashMap") + ")\n\t\t\tfor k, v := range x.Val {\n\t\t\t\tw, ok := y.Val[k]\n\t\t\t\tif !ok || !eq(v, w) {\n\t\t\t\t\treturn false\n\t\t\t\t}\n\t\t\t}\n\t\t\tfor k := range y.Val {\n\t\t\t\tif _, ok := x.Val[k]; !ok {\n\t\t\t\t\treturn false\n\t\t\t\t}\n\t\t\t}\n\t\t\treturn true\n")
+		b.WriteString("\t\tcase " + q("Set") + ":\n\t\t\ty := b.(" + q("Set") + ")\n\t\t\tfor k := range x.Val {\n\t\t\t\tif _, ok := y.Val[k]; !ok {\n\t\t\t\t\treturn false\n\t\t\t\t}\n\t\t\t}\n\t\t\tfor k := range y.Val {\n\t\t\t\tif _, ok := x.Val[k]; !ok {\n\t\t\t\t\treturn false\n\t\t\t\t}\n\t\t\t}\n\t\t\treturn true\n")
+		b.WriteString("\t\t}\n\t\treturn a == b\n\t}\n")
+		fmt.Fprintf(&b, "\tgot := %s\n\twant := eq(%s, %s)\n", call, args[0], args[1])
+		b.WriteString("\tif got != want {\n\t\tt.Fatalf(\"REPLAY-CONFIRMED: Equal_Q returned %v, structural equality is %v\", got, want)\n\t}\n")
+		return b.String()
+	}
+}
